@@ -497,7 +497,7 @@ int main(int argc, char **argv)
     if ((e = getenv("VERIF_N"))) N_DOC = atoi(e);
     if (vf_g.replay) replay_main();
     int deaths = vf_run_workers(worker);
-    static char bound[1300];
+    static char bound[2400];
     snprintf(bound, sizeof bound,
              "inputs: every framed sequence of <= %d tokens over the %d-token hostile alphabet (max_depth 1,2,3) and of <= %d tokens over the %d-token core "
              "alphabet (max_depth 2), object- and array-framed; every valid document with <= %d value tokens over names {a, b, a 128-byte name} and ALL its one-deviation mutants (interior bytes of the long name thinned out) under both init "
@@ -513,6 +513,8 @@ int main(int argc, char **argv)
     vf_evidence_spec es;
     memset(&es, 0, sizeof es);
     es.c_states = CT_STATES; es.c_transitions = CT_TRANS; es.c_validated = CT_TRANS;
+    snprintf(bound + strlen(bound), sizeof bound - strlen(bound), "%s", "; later additions: a complete root followed by 1..262144 junk bytes; names of 65537 (thorough: 65531, 65794) bytes; rich towers (an object with an array field and a scalar at "
+             "every level of 7..254 nested arrays); every pair (thorough: and triple) of small sibling subtrees and the pairs one level further down");
     es.bound = bound;
     es.rule = "exhaustive input enumeration; per input breadth-first search over (parser byte image, application stack, last reported type) with exact-compare visited set; failed paths are not extended";
     es.assumptions = assumptions; es.nassumptions = 3;
